@@ -352,7 +352,7 @@ impl Check for C13 {
         "C13"
     }
     fn rule(&self) -> String {
-        "seeded operation histories over Heap/Guard/Gc (create/drop guard, alloc, link, unlink, guard, unguard, clear, clone/drop handle incl. stale ones, write, collect, set_threshold, read_all, drop_heap with survivors, new_heap); short dense (<=14 ops) and long (up to 20000 ops) strata; non-trivial = at least one collection ran AND at least one object was reclaimed or a heap was dropped with survivors; distinct = distinct hash of (op trace with resolved indices + stats after each collection)".into()
+        "seeded operation histories over Heap/Guard/Gc (create/drop guard, alloc, link, unlink, guard, unguard, clear, clone/drop handle incl. stale ones, write, collect, set_threshold, read_all, drop_heap with survivors, new_heap); short dense (<=14 ops) and long (up to 20000 ops) strata; non-trivial = at least one collection ran AND at least one object was reclaimed or a heap was dropped with survivors; distinct = distinct hash of (op trace with resolved indices + stats after each collection). Also: guard/unguard with stale handles while their slot is free (must be no-ops; on a reused slot = recorded finding KF-C13-2/2b, skipped), GuardMany (up to 47 roots in one guard), GuardBurst (1-40 guards created with a root and dropped: guard-storage pool of 16), guard-storm weights, new guards must be empty".into()
     }
     fn components(&self) -> Value {
         json!({"real": ["tsrun::gc::Heap", "tsrun::gc::Guard", "tsrun::gc::Gc (Space, mark, sweep, pool)"],
